@@ -84,6 +84,11 @@ CHECKS = {
     note="Trusted: TLC, Functional.tla / Denote, drv_functional.cpp. Combinators are checked at design level only. flip / expand_dims are exercised in first position only (compile-time API limitation). One program class is a known finding (extraction for a binary ufunc applied to another view).",
     technique="TLA+ stack-machine model checked by TLC; TLC-generated programs replayed on real functors/compositions/extraction; trace validation by TLC",
     design="5/C14"),
+ "C12": dict(
+    text="ImplSimd.tla models the packed loop and scalar tail of the SIMD evaluators for lane counts 2..16 and every element count up to 4*lanes+1; TLC checks that every packed access lies inside the buffer, that every position is covered exactly once and where the tail starts. The real evaluator code is then driven through a tracing SIMD context (own tag plugged into the simd_op_t / bit_width seam, 64..512-bit registers) that logs every packed load/store, and through the real x86 SSE/AVX and vector-extension contexts; TraceSimd.tla accepts an event iff shape and bit patterns of the SIMD result equal the scalar evaluator's and every logged access lies inside its operand/result buffer.",
+    note="Trusted: TLC, drv_simd.cpp and simd_trace_ctx.hpp (element-wise lane semantics of the tracing context), the scalar evaluator as reference (bound to the reference semantics by C07/C08/C10). SIMDe AVX-512 and column-major operands are not driven. Four input classes are known findings.",
+    technique="TLA+ loop model checked by TLC; real SIMD evaluators driven through a tracing context and real contexts; trace validation (result identity + access ranges) by TLC",
+    design="5/C12"),
 }
 
 NOT_APPLICABLE = {}
